@@ -141,6 +141,7 @@ def _stage(draw, idx, ctr, kinds):
         'root_unsafe': False,
         'grp_unsafe': False,
         'writes': w, 'tags': tags,
+        'alias': draw(st.integers(0, 3)) == 0,
         'order': draw(st.permutations(sorted(k for k in w if k not in ('g1', 'gd')) + ['grp'])),
     }
 
@@ -249,6 +250,17 @@ def stage_doc(stage):
             grp.append([s, n])
         else:
             items[s] = n
+    # yaml anchor / alias: the dynamic node written at grp.g1 is used again, as the very same node object, as an argument of a
+    # function node written later in the same document (its provenance - and taint - is that of grp.g1)
+    if stage.get('alias') and 'g1' in stage['writes'] and stage['writes']['g1'][0] in ('call', 'bind'):
+        order = list(stage['order'])
+        later = [k for k in order[order.index('grp') + 1:] if k in ('n1', 'n2') and k in items and stage['writes'][k][0] in ('call', 'bind', 'args')]
+        if later:
+            for kv in grp:
+                if kv[0] == 'g1':
+                    kv[1]['anchor'] = 'g1a'
+            tgt = items[later[0]]
+            tgt['items'] = list(tgt['items']) + [['fz', {'t': 'alias', 'name': 'g1a'}]]
     out = []
     for k in stage['order']:
         if k == 'grp':
@@ -410,6 +422,8 @@ def run_case(case):
         labels.add('via-include')
     if any(w[0] == 'rec' for s in stages for w in s['writes'].values()):
         labels.add('lazy-include(!rec)')
+    if any('*g1a' in t for t in texts):
+        labels.add('aliased-dynamic-node')
     touched = {}
     for s_ in stages:
         for k in s_['writes']:
